@@ -120,13 +120,27 @@ Writes(w, e) ==
 (* handler program: how much of the element it reads ("none" | "one" | "all" |       *)
 (* "over" = tries to read past the end), what it writes, how it returns ("ok" | "err" *)
 (* = some error | "stanzaerr" = a stanza error value, which Serve's documentation    *)
-(* says is sent to the peer), and what it does to the start element it was handed BY *)
+(* says is sent to the peer | an error VALUE related to a sentinel or to a documented *)
+(* error type: "eof" = io.EOF itself, "weof" = an error that wraps io.EOF (what       *)
+(* fmt.Errorf("...: %w", err) makes of the io.EOF of decoding an empty payload),     *)
+(* "ueof" = io.ErrUnexpectedEOF, "wstanzaerr" = an error that wraps a stanza error,   *)
+(* "streamerr" = a stream.Error value, "wstreamerr" = an error that wraps one), and   *)
+(* what it does to the start element it was handed BY *)
 (* POINTER before it returns (handlers recycle it for their reply): "none" | "type"  *)
 (* (type := result) | "name" (renamed to message) | "id" (another id) | "from"       *)
 (* (another sender) | "clear" (all attributes dropped).  The reply rule is about the *)
 (* request AS IT ARRIVED: no reference function below looks at mut.                  *)
 Prog7(read, w, ret, mut) == [read |-> read, w |-> w, ret |-> ret, mut |-> mut]
 Muts == {"none", "type", "name", "id", "from", "clear"}
+Rets == {"ok", "err", "stanzaerr", "eof", "weof", "ueof", "wstanzaerr", "streamerr", "wstreamerr"}
+(* Only the STREAM can say that the stream has ended: whatever value a handler returns, the request it was handed  *)
+(* is answered - or the stream is terminated with an error that Serve reports.  A returned io.EOF itself may be    *)
+(* read as "I reached the end of my element" (no error: the reply rule applies) or as an error like any other;     *)
+(* errors that merely wrap it, and io.ErrUnexpectedEOF, are errors.  A stanza error, bare or wrapped, may be sent  *)
+(* as the request's error reply (Serve's documentation) or treated like any other error.                           *)
+RetNoError(r) == r \in {"ok", "eof"}
+RetMayFail(r) == r # "ok"
+RetStanza(r) == r \in {"stanzaerr", "wstanzaerr"}
 
 (* THE reply to request e: a top-level iq in the stream's namespace, type result or  *)
 (* error, carrying the request's id                                                  *)
@@ -177,7 +191,8 @@ RepliesR(e, p, ran) ==
       withSE == {Append(base, se) : se \in SEOuts(e)}
       term == {Append(w, <<"serr">>) : w \in ok \cup {base}}    \* terminated by a stream error
   IN IF HRet(p, ran) = "ok" THEN ok
-     ELSE IF HRet(p, ran) = "stanzaerr" /\ ~has /\ (C07_Needs(e) \/ C07_Free(e)) THEN term \cup withSE
+     ELSE IF HRet(p, ran) = "eof" THEN ok \cup term
+     ELSE IF RetStanza(HRet(p, ran)) /\ ~has /\ (C07_Needs(e) \/ C07_Free(e)) THEN term \cup withSE
      ELSE term
 (* a stanza qualified by a stanza namespace that the stream header did not declare   *)
 (* may also be refused outright: the stream is terminated with a stream error before *)
@@ -208,7 +223,8 @@ Mutated(e, mut) ==
     [] OTHER -> e
 
 CONSTANTS C7Dev,     \* named deviations of part 1 ({} in design checks): "StartAfterHandler" = the default reply is
-                     \* decided and built from the start element as the handler left it
+                     \* decided and built from the start element as the handler left it; "EOFLikeEndsServe" = an error of the
+                     \* handler for which errors.Is(err, io.EOF) holds is taken for the end of the input stream
           C7Items,   \* set of (element, program) pairs the design check feeds
           C7Modes,   \* modes explored
           C7Len      \* number of elements per run
@@ -258,7 +274,9 @@ C07_Write ==
 
 C07_Return ==
   /\ c7pc = "handler" /\ c7k > Len(HWrites(c7cur.e, c7cur.p, c7ran))
-  /\ c7pc' = CASE HRet(c7cur.p, c7ran) = "ok" -> "after" [] HRet(c7cur.p, c7ran) = "stanzaerr" -> "sfail" [] OTHER -> "fail"
+  /\ LET r == HRet(c7cur.p, c7ran) IN
+     c7pc' \in (IF RetNoError(r) THEN {"after"} ELSE {}) \cup (IF RetStanza(r) THEN {"sfail"} ELSE {})
+                \cup (IF RetMayFail(r) /\ ~RetStanza(r) THEN {"fail"} ELSE {})
   /\ UNCHANGED <<c7mode, c7in, c7done, c7parts, c7cur, c7k, c7ran, c7wrote, c7out>>
 
 Finish(out, pc) ==
@@ -289,7 +307,15 @@ C07_StreamError ==
         /\ \E su \in SUOuts(c7cur.e) : Finish(c7out \o <<su, <<"serr">> >>, "failed")
      \/ Finish(Append(c7out, <<"serr">>), "failed")
 
+(* deviation: Serve recognises the end of the input with errors.Is(err, io.EOF) - and the error may be the handler's: *)
+(* nothing is added, no stream error, Serve returns nil and the stream is closed as if the peer had closed it          *)
+C07_TakenForEndOfStream ==
+  /\ "EOFLikeEndsServe" \in C7Dev
+  /\ c7pc = "handler" /\ c7k > Len(HWrites(c7cur.e, c7cur.p, c7ran)) /\ HRet(c7cur.p, c7ran) \in {"weof"}
+  /\ Finish(c7out, "closed")
+
 C07_Next == C07_Take \/ C07_Refuse \/ C07_CloseTag \/ C07_Write \/ C07_Return \/ C07_Default \/ C07_StanzaError \/ C07_StreamError
+            \/ C07_TakenForEndOfStream
 
 (* --- properties of part 1 --- *)
 IsSU(o) == o[1] \in {"su", "se"}        \* a reply the session added by itself
@@ -344,6 +370,17 @@ C07_IsReplies ==
 (* non-whitespace text between elements) never reach a handler: they end the session *)
 (* with an error (a received stream error is returned as such); whitespace           *)
 (* keep-alives are ignored; the peer's closing tag ends Serve without error.         *)
+(*                                                                                   *)
+(* PENDING REQUESTS (session 4).  An IQ of type result / error that answers a request *)
+(* the application has pending (SendIQ, UnmarshalIQ, IterIQ ... waiting) is not given  *)
+(* to the handler: the serve loop hands it to the waiting requester, which reads as   *)
+(* much of it as it likes and closes it; the loop then goes on behind its end tag.    *)
+(* Such a response is an element like any other for everything this part says: the    *)
+(* handler's next invocation begins at the next top-level element, and a stream-level *)
+(* construct at any depth INSIDE it ends the session with an error - whether the      *)
+(* requester read up to it, beyond it (it cannot: it gets an error), or not at all -  *)
+(* and nothing behind it is handled.  Items of kind "resp"; the requester's reads are *)
+(* chosen freely (C8WReads).                                                          *)
 
 (* Tokens inside an element: <<"s", name>> <<"e", name>> <<"t">> text <<"w">>        *)
 (* whitespace, and - placed there by a misbehaving peer - a stream-level construct   *)
@@ -355,7 +392,8 @@ IsStop(tok) == tok[1] \in {"c", "bad"}
 (* items of the input; from "none" | "peer" | "own" (the bare form of the session's    *)
 (* own address) | "ownfull" | "was" (the bare form of an address that is not the      *)
 (* session's (any more))                                                              *)
-Elem(kind, from, body) == [k |-> "el", kind |-> kind, from |-> from, body |-> body]  \* kind "stanza" | "foreign"
+Elem(kind, from, body) == [k |-> "el", kind |-> kind, from |-> from, body |-> body]  \* kind "stanza" | "foreign" | "resp" (the response to a pending request)
+ToHandler(it) == it.k = "el" /\ it.kind # "resp"
 (* "utext" is text made of Unicode spaces that are NOT XML white space (U+00A0, U+2003, U+2028, U+3000, U+0085), "mtext" the  *)
 (* same mixed with XML white space: both are non-whitespace text between elements.                                   *)
 (* "ws" "text" "comment" "pi" "directive" "restart" "otherstream" "close" "eof" "badtop" arrive from the peer;  *)
@@ -394,7 +432,7 @@ UpToFirst(items) ==     \* the items that are looked at: up to and including the
 
 (* the handler invocations for an input *)
 C08_Invocations(items, s) ==
-  LET seen == SelectSeq(UpToFirst(items), LAMBDA it : it.k = "el")
+  LET seen == SelectSeq(UpToFirst(items), ToHandler)
   IN [i \in 1..Len(seen) |-> [kind |-> seen[i].kind, from |-> C08_From(seen[i], s),
                                pre |-> C08_Pre(seen[i]), stop |-> HasStop(seen[i])]]
 
@@ -433,7 +471,10 @@ C08_Events(inv, p) ==
 
 CONSTANTS C8Inputs,   \* set of inputs (sequences of items) the design check feeds
           C8Progs,    \* set of program cycles (non-empty sequences of programs)
-          C8Sess      \* set of sessions
+          C8Sess,     \* set of sessions
+          C8WReads,   \* numbers of read attempts a waiting requester may make on the response it is handed
+          C8Dev       \* named deviations of part 2 ({} in design checks): "HandoffNotSticky" = an error of the stream met
+                      \* inside a response that was handed to a requester is reported to the requester only
 
 VARIABLES c8sess,   \* the session (constant during a run)
           c8oclosed,\* the local side has closed its output stream
@@ -445,13 +486,14 @@ VARIABLES c8sess,   \* the session (constant during a run)
           c8left,   \* read attempts the handler has left
           c8stuck,  \* a stream-level construct / malformation was met inside the element
           c8log,    \* invocations: [kind, from, ev (what the handler observed), item (index)]
+          c8wlog,   \* hand-offs to waiting requesters: [ev (what the requester observed), item (index)]
           c8out     \* Serve's outcome class, <<"none">> while running
-c8vars == <<c8sess, c8oclosed, c8in, c8progs, c8i, c8pc, c8pos, c8left, c8stuck, c8log, c8out>>
+c8vars == <<c8sess, c8oclosed, c8in, c8progs, c8i, c8pc, c8pos, c8left, c8stuck, c8log, c8wlog, c8out>>
 
 C08_Init ==
   /\ c8sess \in C8Sess /\ c8oclosed = FALSE
   /\ c8in \in C8Inputs /\ c8progs \in C8Progs
-  /\ c8i = 1 /\ c8pc = "top" /\ c8pos = 0 /\ c8left = 0 /\ c8stuck = FALSE /\ c8log = <<>> /\ c8out = <<"none">>
+  /\ c8i = 1 /\ c8pc = "top" /\ c8pos = 0 /\ c8left = 0 /\ c8stuck = FALSE /\ c8log = <<>> /\ c8wlog = <<>> /\ c8out = <<"none">>
 
 CurEl == c8in[c8i]
 CurProg == c8progs[((Len(c8log) - 1) % Len(c8progs)) + 1]
@@ -462,25 +504,51 @@ C08_TopToken ==
   /\ c8pc = "top"
   /\ IF c8i > Len(c8in) THEN      \* the transport ends without a closing tag
        /\ \E o \in {<<"nil">>, <<"err">>} : EndWith(o)
-       /\ UNCHANGED <<c8sess, c8oclosed, c8in, c8progs, c8i, c8pos, c8left, c8stuck, c8log>>
+       /\ UNCHANGED <<c8sess, c8oclosed, c8in, c8progs, c8i, c8pos, c8left, c8stuck, c8log, c8wlog>>
      ELSE LET it == c8in[c8i] IN
        CASE it.k = "ws" ->       \* keep-alive
-              /\ c8i' = c8i + 1 /\ UNCHANGED <<c8sess, c8oclosed, c8in, c8progs, c8pc, c8pos, c8left, c8stuck, c8log, c8out>>
+              /\ c8i' = c8i + 1 /\ UNCHANGED <<c8sess, c8oclosed, c8in, c8progs, c8pc, c8pos, c8left, c8stuck, c8log, c8wlog, c8out>>
          [] it.k = "lclose" ->   \* not a token: the local side calls Close(); Serve carries on reading
               /\ c8oclosed' = TRUE /\ c8i' = c8i + 1
-              /\ UNCHANGED <<c8sess, c8in, c8progs, c8pc, c8pos, c8left, c8stuck, c8log, c8out>>
-         [] it.k = "el" ->       \* a top-level element: the handler is invoked with its start tag
+              /\ UNCHANGED <<c8sess, c8in, c8progs, c8pc, c8pos, c8left, c8stuck, c8log, c8wlog, c8out>>
+         [] it.k = "el" /\ it.kind = "resp" ->   \* the response to a pending request: handed to the requester that waits for it
+              /\ c8wlog' = Append(c8wlog, [ev |-> <<>>, item |-> c8i])
+              /\ c8pc' = "waiter" /\ c8pos' = 0 /\ c8stuck' = FALSE
+              /\ c8left' \in C8WReads
+              /\ UNCHANGED <<c8sess, c8oclosed, c8in, c8progs, c8i, c8log, c8out>>
+         [] it.k = "el" /\ it.kind # "resp" ->       \* a top-level element: the handler is invoked with its start tag
               /\ c8log' = Append(c8log, [kind |-> it.kind, from |-> C08_From(it, c8sess), ev |-> <<>>, item |-> c8i])
               /\ c8pc' = "handler" /\ c8pos' = 0 /\ c8stuck' = FALSE
               /\ c8left' = c8progs[(Len(c8log) % Len(c8progs)) + 1].n
-              /\ UNCHANGED <<c8sess, c8oclosed, c8in, c8progs, c8i, c8out>>
-         [] it.k = "close" -> EndWith(<<"nil">>) /\ UNCHANGED <<c8sess, c8oclosed, c8in, c8progs, c8i, c8pos, c8left, c8stuck, c8log>>
+              /\ UNCHANGED <<c8sess, c8oclosed, c8in, c8progs, c8i, c8wlog, c8out>>
+         [] it.k = "close" -> EndWith(<<"nil">>) /\ UNCHANGED <<c8sess, c8oclosed, c8in, c8progs, c8i, c8pos, c8left, c8stuck, c8log, c8wlog>>
          [] it.k = "eof" -> (\E o \in {<<"nil">>, <<"err">>} : EndWith(o))
-                            /\ UNCHANGED <<c8sess, c8oclosed, c8in, c8progs, c8i, c8pos, c8left, c8stuck, c8log>>
-         [] it.k = "serr" -> EndWith(<<"serr", it.cond>>) /\ UNCHANGED <<c8sess, c8oclosed, c8in, c8progs, c8i, c8pos, c8left, c8stuck, c8log>>
-         [] OTHER -> EndWith(<<"err">>) /\ UNCHANGED <<c8sess, c8oclosed, c8in, c8progs, c8i, c8pos, c8left, c8stuck, c8log>>
+                            /\ UNCHANGED <<c8sess, c8oclosed, c8in, c8progs, c8i, c8pos, c8left, c8stuck, c8log, c8wlog>>
+         [] it.k = "serr" -> EndWith(<<"serr", it.cond>>) /\ UNCHANGED <<c8sess, c8oclosed, c8in, c8progs, c8i, c8pos, c8left, c8stuck, c8log, c8wlog>>
+         [] OTHER -> EndWith(<<"err">>) /\ UNCHANGED <<c8sess, c8oclosed, c8in, c8progs, c8i, c8pos, c8left, c8stuck, c8log, c8wlog>>
 
 Observe(e) == c8log' = [c8log EXCEPT ![Len(c8log)].ev = Append(@, e)]
+WObserve(e) == c8wlog' = [c8wlog EXCEPT ![Len(c8wlog)].ev = Append(@, e)]
+StopOutcomes(tok) == IF tok = <<"c", "serr">> THEN {<<"err">>, <<"serr", "nested">>} ELSE {<<"err">>}
+
+(* the requester asks for one more token of the response; at the first error it gives up *)
+C08_WaiterRead ==
+  /\ c8pc = "waiter" /\ c8left > 0 /\ ~c8stuck
+  /\ c8left' = c8left - 1
+  /\ LET w == Window(CurEl) IN
+     IF c8pos >= Len(w) THEN WObserve(<<"eof">>) /\ UNCHANGED <<c8pos, c8stuck>>
+     ELSE IF IsStop(w[c8pos + 1]) THEN WObserve(<<"err">>) /\ c8stuck' = TRUE /\ c8pos' = c8pos + 1
+     ELSE WObserve(w[c8pos + 1]) /\ c8pos' = c8pos + 1 /\ UNCHANGED c8stuck
+  /\ UNCHANGED <<c8sess, c8oclosed, c8in, c8progs, c8i, c8pc, c8log, c8out>>
+
+(* the requester closes the response: a construct it met ends the session (the error is the stream's, not the      *)
+(* requester's); otherwise the serve loop skips the rest of the response                                            *)
+C08_WaiterDone ==
+  /\ c8pc = "waiter" /\ (c8left = 0 \/ c8stuck)
+  /\ IF c8stuck /\ "HandoffNotSticky" \notin C8Dev THEN
+       /\ \E o \in StopOutcomes(CurEl.body[FirstStop(CurEl)]) : EndWith(o)
+       /\ UNCHANGED <<c8sess, c8oclosed, c8in, c8progs, c8i, c8pos, c8left, c8stuck, c8log, c8wlog>>
+     ELSE c8pc' = "skip" /\ UNCHANGED <<c8sess, c8oclosed, c8in, c8progs, c8i, c8pos, c8left, c8stuck, c8log, c8wlog, c8out>>
 
 (* the handler asks for one more token of its element *)
 C08_HandlerRead ==
@@ -493,12 +561,12 @@ C08_HandlerRead ==
      ELSE IF IsStop(w[c8pos + 1]) THEN
         /\ Observe(<<"err">>) /\ c8stuck' = TRUE /\ c8pos' = c8pos + 1
      ELSE Observe(w[c8pos + 1]) /\ c8pos' = c8pos + 1 /\ UNCHANGED c8stuck
-  /\ UNCHANGED <<c8sess, c8oclosed, c8in, c8progs, c8i, c8pc, c8out>>
+  /\ UNCHANGED <<c8sess, c8oclosed, c8in, c8progs, c8i, c8pc, c8wlog, c8out>>
 
 (* a handler in "stop" mode gives up reading at the first error *)
 C08_HandlerStops ==
   /\ c8pc = "handler" /\ c8left > 0 /\ c8stuck /\ Stops(CurProg)
-  /\ c8left' = 0 /\ UNCHANGED <<c8sess, c8oclosed, c8in, c8progs, c8i, c8pc, c8pos, c8stuck, c8log, c8out>>
+  /\ c8left' = 0 /\ UNCHANGED <<c8sess, c8oclosed, c8in, c8progs, c8i, c8pc, c8pos, c8stuck, c8log, c8wlog, c8out>>
 
 (* the handler returns nil: a construct it met ends the session; otherwise the rest  *)
 (* of the element is skipped                                                         *)
@@ -507,21 +575,21 @@ C08_HandlerReturn ==
   /\ IF c8stuck THEN
        /\ \E o \in (IF CurEl.body[FirstStop(CurEl)] = <<"c", "serr">> THEN {<<"err">>, <<"serr", "nested">>} ELSE {<<"err">>}) :
             EndWith(o)
-       /\ UNCHANGED <<c8sess, c8oclosed, c8in, c8progs, c8i, c8pos, c8left, c8stuck, c8log>>
-     ELSE c8pc' = "skip" /\ UNCHANGED <<c8sess, c8oclosed, c8in, c8progs, c8i, c8pos, c8left, c8stuck, c8log, c8out>>
+       /\ UNCHANGED <<c8sess, c8oclosed, c8in, c8progs, c8i, c8pos, c8left, c8stuck, c8log, c8wlog>>
+     ELSE c8pc' = "skip" /\ UNCHANGED <<c8sess, c8oclosed, c8in, c8progs, c8i, c8pos, c8left, c8stuck, c8log, c8wlog, c8out>>
 
 (* advance to the end of the element *)
 C08_Skip ==
   /\ c8pc = "skip"
   /\ LET w == Window(CurEl) IN
      IF c8pos >= Len(w) THEN
-        /\ c8pc' = "top" /\ c8i' = c8i + 1 /\ UNCHANGED <<c8sess, c8oclosed, c8in, c8progs, c8pos, c8left, c8stuck, c8log, c8out>>
-     ELSE IF IsStop(w[c8pos + 1]) THEN
-        /\ \E o \in (IF w[c8pos + 1] = <<"c", "serr">> THEN {<<"err">>, <<"serr", "nested">>} ELSE {<<"err">>}) : EndWith(o)
-        /\ UNCHANGED <<c8sess, c8oclosed, c8in, c8progs, c8i, c8pos, c8left, c8stuck, c8log>>
-     ELSE c8pos' = c8pos + 1 /\ UNCHANGED <<c8sess, c8oclosed, c8in, c8progs, c8i, c8pc, c8left, c8stuck, c8log, c8out>>
+        /\ c8pc' = "top" /\ c8i' = c8i + 1 /\ UNCHANGED <<c8sess, c8oclosed, c8in, c8progs, c8pos, c8left, c8stuck, c8log, c8wlog, c8out>>
+     ELSE IF IsStop(w[c8pos + 1]) /\ ~("HandoffNotSticky" \in C8Dev /\ CurEl.kind = "resp") THEN
+        /\ \E o \in StopOutcomes(w[c8pos + 1]) : EndWith(o)
+        /\ UNCHANGED <<c8sess, c8oclosed, c8in, c8progs, c8i, c8pos, c8left, c8stuck, c8log, c8wlog>>
+     ELSE c8pos' = c8pos + 1 /\ UNCHANGED <<c8sess, c8oclosed, c8in, c8progs, c8i, c8pc, c8left, c8stuck, c8log, c8wlog, c8out>>
 
-C08_Next == C08_TopToken \/ C08_HandlerRead \/ C08_HandlerStops \/ C08_HandlerReturn \/ C08_Skip
+C08_Next == C08_TopToken \/ C08_HandlerRead \/ C08_HandlerStops \/ C08_HandlerReturn \/ C08_WaiterRead \/ C08_WaiterDone \/ C08_Skip
 
 (* --- properties of part 2 --- *)
 Toks(ev) == SelectSeq(ev, LAMBDA e : e[1] \notin {"err", "eof", "free"})
@@ -540,7 +608,7 @@ C08_ElementWindow ==
        /\ Len(got) <= Len(Window(el))
 (* the i-th invocation is for the i-th top-level element, whatever was consumed before *)
 C08_NextStartsAtNext ==
-  LET els == {j \in 1..Len(c8in) : c8in[j].k = "el"}
+  LET els == {j \in 1..Len(c8in) : ToHandler(c8in[j])}
   IN \A i \in 1..Len(c8log) :
        /\ c8log[i].item \in els
        /\ Cardinality({j \in els : j < c8log[i].item}) = i - 1
@@ -555,8 +623,16 @@ C08_FromNormalised ==
 (* ends the session with an error                                                    *)
 C08_StreamLevelNeverDelivered ==
   /\ \A i \in 1..Len(c8log) : \A j \in 1..Len(c8log[i].ev) : ~IsStop(c8log[i].ev[j])
+  /\ \A i \in 1..Len(c8wlog) : \A j \in 1..Len(c8wlog[i].ev) : ~IsStop(c8wlog[i].ev[j])
+  /\ \A i \in 1..Len(c8wlog) : \A j \in 1..(c8wlog[i].item - 1) : ~Terminates(c8in[j])
   /\ \A i \in 1..Len(c8log) : \A j \in 1..(c8log[i].item - 1) : ~Terminates(c8in[j])
   /\ (c8pc = "done" /\ c8i <= Len(c8in) /\ c8in[c8i].k \notin {"close", "eof"} => c8out # <<"nil">>)
+(* a response to a pending request goes to the requester, everything else to the handler; each exactly once *)
+C08_ResponseToRequester ==
+  /\ \A i \in 1..Len(c8log) : ToHandler(c8in[c8log[i].item])
+  /\ \A i \in 1..Len(c8wlog) : c8in[c8wlog[i].item].k = "el" /\ c8in[c8wlog[i].item].kind = "resp"
+  /\ \A i, j \in 1..Len(c8wlog) : i < j => c8wlog[i].item < c8wlog[j].item
+  /\ (c8pc = "done" => Len(c8wlog) = Len(SelectSeq(UpToFirst(c8in), LAMBDA it : it.k = "el" /\ it.kind = "resp")))
 C08_CloseTagEndsNil ==
   c8pc = "done" /\ c8i <= Len(c8in) /\ c8in[c8i].k = "close" => c8out = <<"nil">>
 (* the local side's Close() changes nothing of the above: the handler invocations and *)
@@ -585,7 +661,7 @@ C08_IsReference ==
 C07_Idle == /\ c7mode = "plain" /\ c7in = <<>> /\ c7done = <<>> /\ c7parts = <<>> /\ c7cur = NoItem /\ c7pc = "off"
             /\ c7k = 1 /\ c7ran = TRUE /\ c7wrote = FALSE /\ c7out = <<>>
 C08_Idle == /\ c8sess = Sess("c2s", "custom", "same", FALSE) /\ c8oclosed = FALSE /\ c8in = <<>> /\ c8progs = <<>> /\ c8i = 1 /\ c8pc = "off" /\ c8pos = 0 /\ c8left = 0
-            /\ c8stuck = FALSE /\ c8log = <<>> /\ c8out = <<"none">>
+            /\ c8stuck = FALSE /\ c8log = <<>> /\ c8wlog = <<>> /\ c8out = <<"none">>
 Init7 == C07_Init /\ C08_Idle
 Next7 == C07_Next /\ UNCHANGED c8vars
 Init8 == C08_Init /\ C07_Idle
